@@ -83,7 +83,9 @@ JType(k) == IF k \in {"i64", "u64", "f64"} THEN "num" ELSE IF k = "vec" THEN "ar
 EqPrimBad(e) ==
   IF e.panic THEN {"panic"}
   ELSE LET r == e.r  exact == e.kind \in {"i64", "u64", "bool", "str", "vec"} /\ e.rkind \in {"i64", "u64", "bool", "str", "vec"} IN
-  {c \in {"prim-tovalue", "prim-parsed", "prim-distinct", "prim-symmetric", "prim-cross", "prim-same", "prim-exact"} :
+  {c \in {"prim-tovalue", "prim-parsed", "prim-distinct", "prim-symmetric", "prim-cross", "prim-same", "prim-exact", "prim-from", "prim-json"} :
+     \/ (c = "prim-from" /\ ~r.f1)                               \* Value::from(p) = to_value(p), and it serialises to to_string(p)
+     \/ (c = "prim-json" /\ ~r.j1)                               \* json!(p) likewise
      \/ (c = "prim-tovalue" /\ ~(r.a1 /\ r.a2))                  \* to_value(p) == p, both argument orders
      \/ (c = "prim-parsed" /\ ~(r.b1 /\ r.b2))                   \* parse(to_string(p)) == p
      \/ (c = "prim-distinct" /\ r.c # r.pq)                      \* to_value(p) == q  exactly when  p == q
